@@ -138,6 +138,55 @@ def run_ops(rep):
         out.append(("argnum=-1", grad(lambda p, q: p * q * q, -1)(a, b) == 2 * a * b, "negative argnum"))
     except Exception as e:
         out.append(("argnum", False, f"raised {type(e).__name__}: {str(e)[:120]}"))
+    # every public operator: differentiated argument at position 1, an extra positional AFTER it, a keyword-only option with a non-default value
+    try:
+        from autograd import checkpoint, hessian_vector_product, vector_jacobian_product
+        d_ = S.sym("x5")
+        qn = ["x3", "x4"]
+        fs = lambda p_, q_, r_=1, *, s_=1: p_ * p_ * anp.sum(q_ * q_ * q_) * r_ + s_ * anp.sum(q_ * q_)
+        fv = lambda p_, q_, r_=1, *, s_=1: q_ * q_ * q_ * p_ * r_ + s_ * q_
+        ys, yv = fs(a, xv, c, s_=d_), S.entries(fv(a, xv, c, s_=d_))
+        gs = [ys.diff(n_) for n_ in qn]
+        Hs = [[ys.diff(n1).diff(n2) for n2 in qn] for n1 in qn]
+        Jv = [[o.diff(n_) for n_ in qn] for o in yv]
+        Ve = S.entries(Vv)
+        Gv = S.symarray("g", (2,))[0]
+        Ge = S.entries(Gv)
+        Hv = [sum((Hs[i][j] * Ve[j] for j in range(2)), Z) for i in range(2)]
+        JV = [sum((Jv[o][i] * Ve[i] for i in range(2)), Z) for o in range(2)]
+        GJ = [sum((Ge[o] * Jv[o][i] for o in range(2)), Z) for i in range(2)]
+        same = lambda got, exp: len(S.entries(got)) == len(exp) and all(p_ == q_ for p_, q_ in zip(S.entries(got), exp))
+        kwprogs = [
+            ("grad", lambda: same(grad(fs, 1)(a, xv, c, s_=d_), gs)),
+            ("value_and_grad", lambda: (lambda r_: r_[0] == ys and same(r_[1], gs))(value_and_grad(fs, 1)(a, xv, c, s_=d_))),
+            ("elementwise_grad", lambda: same(elementwise_grad(fv, 1)(a, xv, c, s_=d_), [Jv[0][i] + Jv[1][i] for i in range(2)])),
+            ("jacobian", lambda: same(jacobian(fv, 1)(a, xv, c, s_=d_), [Jv[o][i] for o in range(2) for i in range(2)])),
+            ("hessian", lambda: same(hessian(fs, 1)(a, xv, c, s_=d_), [Hs[i][j] for i in range(2) for j in range(2)])),
+            ("make_vjp", lambda: (lambda r_: same(r_[0](Gv), GJ) and same(r_[1], yv))(make_vjp(fv, 1)(a, xv, c, s_=d_))),
+            ("make_jvp", lambda: (lambda r_: same(r_[0], yv) and same(r_[1], JV))(make_jvp(fv, 1)(a, xv, c, s_=d_)(Vv))),
+            ("make_jvp_reversemode", lambda: same(make_jvp_reversemode(fv, 1)(a, xv, c, s_=d_)(Vv), JV)),
+            ("make_hvp", lambda: same(make_hvp(fs, 1)(a, xv, c, s_=d_)[0](Vv), Hv)),
+            ("hessian_tensor_product", lambda: same(hessian_tensor_product(fs, 1)(a, xv, c, Vv, s_=d_), Hv)),
+            ("hessian_vector_product", lambda: same(hessian_vector_product(fs, 1)(a, xv, c, Vv, s_=d_), Hv)),
+            ("tensor_jacobian_product", lambda: same(tensor_jacobian_product(fv, 1)(a, xv, c, Gv, s_=d_), GJ)),
+            ("vector_jacobian_product", lambda: same(vector_jacobian_product(fv, 1)(a, xv, c, Gv, s_=d_), GJ)),
+            ("make_ggnvp", lambda: same(make_ggnvp(fv, f_argnum=1)(a, xv, c, s_=d_)(Vv), [sum((Jv[o][i] * JV[o] for o in range(2)), Z) for i in range(2)])),
+            ("grad_and_aux", lambda: (lambda r_: same(r_[0], gs) and r_[1] == d_ * 2)(grad_and_aux(lambda *a_, **k_: (fs(*a_, **k_), k_["s_"] * 2), 1)(a, xv, c, s_=d_))),
+            ("deriv", lambda: deriv(fs, 0)(a, xv, c, s_=d_) == ys.diff("x0")),
+            ("grad_named", lambda: same(grad_named(fs, "q_")(a, xv, c, s_=d_), gs)),
+            ("checkpoint", lambda: same(grad(checkpoint(fs), 1)(a, xv, c, s_=d_), gs)),
+            ("grad(checkpoint) order 2", lambda: same(hessian(checkpoint(fs), 1)(a, xv, c, s_=d_), [Hs[i][j] for i in range(2) for j in range(2)])),
+        ]
+        for lab, run in kwprogs:
+            try:
+                with warnings.catch_warnings():
+                    warnings.simplefilter("ignore")
+                    okk = bool(run())
+                out.append((f"args+kwargs|{lab}", okk, f"{lab}(f, 1)(p, q, r, s_=d): the result is not the exact derivative with respect to q at (p, q, r, s_=d) - extra positional / keyword arguments must reach f unchanged"))
+            except Exception as e:
+                out.append((f"args+kwargs|{lab}", False, f"raised {type(e).__name__}: {str(e)[:120]}"))
+    except Exception as e:
+        out.append(("args+kwargs", False, f"raised {type(e).__name__}: {str(e)[:120]}"))
     for lab, ok, d in out:
         rep.bounded_case(("P-ops", lab), sample=dict(case=lab, clause="P-ops", result=d) if ok and len(rep.bounded_samples) < 4 else None)
         if not ok:
@@ -177,10 +226,61 @@ def run_nest(rep):
             out.append((f"depth3|{''.join(ms)}|{bn}", r == exp, f"got {r}, exact {exp}"))
         except Exception as e:
             out.append((f"depth3|{''.join(ms)}|{bn}", False, f"raised {type(e).__name__}: {str(e)[:100]}"))
+    out += _fixed_point_cases(S)
     for lab, ok, d in out:
         rep.bounded_case(("P-nest", lab), sample=dict(case=lab, clause="P-nest") if ok and len(rep.bounded_samples) < 3 else None)
         if not ok:
             rep.violation("PROG:P-nest", lab, f"{lab}: {d}", replay=dict(module="contracts.programs_exact", part="nest", label=lab), witness=True)
+
+
+def _fixed_point_cases(S):
+    """autograd.misc.fixed_points.fixed_point (implicit differentiation; its VJP nests make_vjp inside a second fixed_point whose parameters
+    are traced at the OUTER level): exact runs on a nilpotent contraction  f(a)(x) = a*b*e0 + a*(N x),  N the 2x2 shift, whose fixed point
+    (a*b, a^2*b) is reached after two exact iterations (distance = exact equality of field elements), so every nesting of reverse mode must
+    return the field's own derivative of  a*b + a^2*b."""
+    import autograd.numpy as anp
+    from autograd import grad
+    from autograd.builtins import tuple as atuple
+    from autograd.misc.fixed_points import fixed_point
+    out = []
+    a0, b0 = S.sym("x0"), S.sym("x1")
+    e0, N, z = S.constarray([1, 0], (2,)), S.constarray([0, 0, 1, 0], (2, 2)), S.constarray([0, 0], (2,))
+    dist = lambda x, y: 0 if all(S.eqsym(p, q) for p, q in zip(S.entries(x), S.entries(y))) else 1
+    fp = lambda a, b: anp.sum(fixed_point(lambda ab: (lambda x: ab[0] * ab[1] * e0 + ab[0] * anp.dot(N, x)), atuple((a, b)), z, dist, 0))
+    fp1 = lambda a: anp.sum(fixed_point(lambda a_: (lambda x: a_ * a_ * e0 + a_ * anp.dot(N, x)), a, z, dist, 0))
+    F = a0 * b0 + a0 * a0 * b0
+    F1 = a0 * a0 + a0 * a0 * a0
+    progs = [
+        ("value", lambda: fp(a0, b0), F),
+        ("R_a", lambda: grad(fp, 0)(a0, b0), F.diff("x0")),
+        ("R_b", lambda: grad(fp, 1)(a0, b0), F.diff("x1")),
+        ("R_a R_a", lambda: grad(grad(fp, 0), 0)(a0, b0), F.diff("x0").diff("x0")),
+        ("R_a R_b", lambda: grad(lambda a: grad(fp, 1)(a, b0))(a0), F.diff("x1").diff("x0")),
+        ("R_a [a * R_b]", lambda: grad(lambda a: a * grad(lambda b: fp(a, b))(b0))(a0), (a0 * F.diff("x1")).diff("x0")),
+        ("R_b [b * R_a + (R_a)^2]", lambda: grad(lambda b: b * grad(lambda a: fp(a, b))(a0) + grad(lambda a: fp(a, b))(a0) ** 2)(b0), (b0 * F.diff("x0") + F.diff("x0") * F.diff("x0")).diff("x1")),
+        ("1-param R R", lambda: grad(grad(fp1))(a0), F1.diff("x0").diff("x0")),
+        ("1-param R [a * R]", lambda: grad(lambda a: a * grad(fp1)(a))(a0), (a0 * F1.diff("x0")).diff("x0")),
+    ]
+    for lab, run, exp in progs:
+        try:
+            with warnings.catch_warnings():
+                warnings.simplefilter("ignore")
+                r = run()
+            ok = (isinstance(r, S.Sym) or (isinstance(r, onp.ndarray) and r.shape == ())) and S.eqsym(S.entries(r)[0], exp)   # a 0-d object array is the exact engine's scalar too
+            out.append((f"fixed_point|{lab}", ok, f"got {r!r} ({type(r).__name__}), exact {exp!r}"))
+        except Exception as e:
+            out.append((f"fixed_point|{lab}", False, f"raised {type(e).__name__}: {str(e)[:100]}"))
+    # third order in floats (the exact zero of an object array is a Python int, which has no vector space: E4 artefact at depth 3)
+    try:
+        e0f, Nf = onp.array([1.0, 0.0]), onp.array([[0.0, 0.0], [1.0, 0.0]])
+        fpf = lambda a: anp.sum(fixed_point(lambda a_: (lambda x: a_ * a_ * e0f + a_ * anp.dot(Nf, x)), a, onp.zeros(2), lambda x, y: float(onp.max(onp.abs(x - y))), 1e-13))
+        r3 = grad(grad(grad(fpf)))(1.5)
+        r2 = grad(grad(fpf))(1.5)
+        ok = type(r3) in (float, onp.float64) and abs(r3 - 6.0) < 1e-9 and abs(r2 - (2 + 6 * 1.5)) < 1e-9
+        out.append(("fixed_point|float R R R", ok, f"third derivative of a^2 + a^3 at 1.5: got {r3!r} (exact 6.0); second: got {r2!r} (exact 11.0)"))
+    except Exception as e:
+        out.append(("fixed_point|float R R R", False, f"raised {type(e).__name__}: {str(e)[:100]}"))
+    return out
 
 
 def run_zero(rep):
